@@ -537,6 +537,9 @@ class KLeaf:
 PREPARER_BODY = {
     "abs": "abs(v) if isinstance(v, int) and not isinstance(v, bool) else v",
     "upper": "v.upper() if isinstance(v, str) else v",
+    # not idempotent (running one twice shows), used by subclasses that override an inherited preparer
+    "inc": "v + 1 if isinstance(v, int) and not isinstance(v, bool) else v",
+    "bang": "v + '!' if isinstance(v, str) else v",
 }
 
 
@@ -545,6 +548,10 @@ def model_prepare(which, v):
         return abs(v) if isinstance(v, int) and not isinstance(v, bool) else v
     if which == "upper":
         return v.upper() if isinstance(v, str) else v
+    if which == "inc":
+        return v + 1 if isinstance(v, int) and not isinstance(v, bool) else v
+    if which == "bang":
+        return v + "!" if isinstance(v, str) else v
     return v
 
 
@@ -919,7 +926,18 @@ def gen_module(rng, profile=None):
             a1 = rng.choice(rest)
             d = random_default(a1.tk, rng, allow_none=False)
             d[0] = "lit"
-            S.attrs.append(AttrDecl(tk=a1.tk, default=d, annotated=False))
+            over = AttrDecl(tk=a1.tk, default=d, annotated=False)
+            if profile.get("preparers", True) and rng.random() < 0.5:
+                # ... and overrides its preparer / item preparer (a method like any other) along with the default
+                if a1.tk == "int":
+                    over.preparer = "inc"
+                elif a1.tk == "str":
+                    over.preparer = "bang"
+                elif a1.tk in ("li", "dsi", "si"):
+                    over.item_preparer = "inc"
+                elif a1.tk in ("ss", "ls"):
+                    over.item_preparer = "bang"
+            S.attrs.append(over)
         # add a new attribute
         unused = [tk for tk in SCALAR_TKS + COLL_TKS if TYPES[tk].name not in names]
         if unused and rng.random() < 0.6:
